@@ -4,6 +4,7 @@ package memfs
 
 import (
 	"fmt"
+	"io/fs"
 	"net/url"
 	"path"
 
@@ -32,13 +33,13 @@ func Key(u *url.URL) string {
 	return c.String()
 }
 
-func (fs *FS) Read(_ *openapi3.Loader, u *url.URL) ([]byte, error) {
-	fs.Log = append(fs.Log, u.String())
-	if b, ok := fs.Files[Key(u)]; ok {
+func (mfs *FS) Read(_ *openapi3.Loader, u *url.URL) ([]byte, error) {
+	mfs.Log = append(mfs.Log, u.String())
+	if b, ok := mfs.Files[Key(u)]; ok {
 		return b, nil
 	}
-	if fs.Decoy != nil {
-		return fs.Decoy, nil
+	if mfs.Decoy != nil {
+		return mfs.Decoy, nil
 	}
-	return nil, fmt.Errorf("memfs: no such file %q", u.String())
+	return nil, fmt.Errorf("memfs: no such file %q: %w", u.String(), fs.ErrNotExist) // as a file system would say it
 }
